@@ -155,6 +155,19 @@ CLAIMED = {
         "dynamic symbolic execution of the real Python code (vx) + z3 (equalities over opaque terms), concrete label replay per path",
         "DESIGN.md section 4 C05",
     ),
+    "C08": (
+        "model_checking",
+        "Processor.set/get/has, _get_obj_att and Arguments on processors of all four detector types whose every settable leaf holds a symbolic "
+        "value: for each of ~21 keys, set(key, v) with a symbolic v of the right shape (int, real, bool, list) => get(key) == v and every "
+        "other leaf keeps its initial term (frame condition), or it raises and nothing changed. Misspelt / truncated / extended / swapped keys "
+        "(6 mutations of 5 base keys) at every entry point (set, has, validate_steps, apply_overrides, update_processor): refused, no attribute "
+        "created, state unchanged; arguments of a disabled model (flag symbolic) and undeclared arguments are errors. eval_entry: decimal "
+        "renderings and a sample list in vx, arbitrary strings of length <= 3 (4) with CrossHair.",
+        "The eval_entry sub-check over arbitrary strings is bug-hunting only (ast.literal_eval is C code: CrossHair realises the string); "
+        "literals denoting None/dict/set/bytes are unspecified; assigned numeric values are assumed inside the documented ranges.",
+        "dynamic symbolic execution of the real Python code (vx) + z3; CrossHair 0.0.110 for the string sub-check (bug-hunting)",
+        "DESIGN.md section 4 C08",
+    ),
 }
 
 NOT_APPLICABLE = {
